@@ -49,6 +49,9 @@ type Node struct {
 	// ResultTypes optionally declares the item type per result (same index).
 	ResultTypes []string   `json:"resultTypes,omitempty"`
 	DataOutputs []string   `json:"dataOutputs,omitempty"`
+	// Props: olive properties without a value - resolved by name from the
+	// instance variables whenever the task is requested
+	Props []string `json:"props,omitempty"`
 	Retries     int        `json:"retries,omitempty"`
 	Defs        []EventDef `json:"defs,omitempty"`
 	ParallelMul bool       `json:"parallelMultiple,omitempty"`
@@ -344,8 +347,20 @@ func nodeXML(n *Node, p *Program, pm *perm) string {
 	}
 	sb.WriteString(">\n")
 	// extension elements
-	if len(n.Results) > 0 || len(n.DataOutputs) > 0 || n.Retries > 0 {
+	if len(n.Results) > 0 || len(n.DataOutputs) > 0 || n.Retries > 0 || len(n.Props) > 0 {
 		sb.WriteString("<bpmn:extensionElements>")
+		if len(n.Props) > 0 {
+			sb.WriteString("<olive:properties>")
+			for _, pr := range n.Props {
+				// "name" or "name:type"
+				if i := strings.IndexByte(pr, ':'); i > 0 {
+					fmt.Fprintf(&sb, `<olive:property name="%s" type="%s"/>`, pr[:i], pr[i+1:])
+				} else {
+					fmt.Fprintf(&sb, `<olive:property name="%s"/>`, pr)
+				}
+			}
+			sb.WriteString("</olive:properties>")
+		}
 		if n.Retries > 0 {
 			fmt.Fprintf(&sb, `<olive:taskDefinition type="t" retries="%d"/>`, n.Retries)
 		}
